@@ -1,5 +1,6 @@
 """C08 — messages and browsers are only sent to endpoints registered in metadata."""
 import html
+import random
 import re
 from xml.sax.saxutils import quoteattr
 
@@ -28,8 +29,18 @@ RULE = ("seeded random metadata worlds (1-3 sources, 1-3 SPs, 0-2 IdPs, 1-3 endp
         "class x caller bindings x descriptor type x entity type x issuer x preferred_binding; pick_binding for an "
         "entity; SP _sso_location / prepare_for_negotiated_authenticate / prepare_for_authenticate over entity x "
         "binding; do_logout over entity lists x expected binding x preference (stub transport); "
-        "DiscoveryServer.verify_return over 8 return-URL classes. non-trivial = distinct (operation kind, input "
-        "classes, outcome kind)")
+        "DiscoveryServer.verify_return over 8 return-URL classes. Round 2 (own generator, seeded from ctx.rng after the "
+        "above): 6 (thorough 24) SHAPE worlds whose discovery-response and consumer-service locations take every shape of "
+        "DISCO_SHAPES / ACS_TAILS in turn (site root with and without '/', directory style, '//', empty / complete / "
+        "open-ended query, port, mixed case, percent-escape, dot segment, dangling '#' '?' '&', http); for every requester "
+        "and EVERY location registered for it the COMPLETE neighbourhood url_neighbours(location) as return URL (about 90 "
+        "per location: exact; 13 extensions; every trimmed form of the location - last char, each trailing "
+        "punctuation run, dirname, query / fragment removed, origin - alone and continued by 14 look-alike tails; case, "
+        "scheme, authority (userinfo, port, dot, sub-domain, typo, host as userinfo), path spelling (dot segments, "
+        "'//', backslash, percent-encoding both ways, query order), leading white space, embedded in another URL), the "
+        "locations of other SPs / other bindings and their trimmed-and-continued forms, look-alike requester ids; the "
+        "compact neighbourhood of 2 consumer-service locations per SP as AssertionConsumerServiceURL; samples of both in "
+        "the ordinary worlds. non-trivial = distinct (operation kind, input classes, outcome kind)")
 def regenerate_tables(ctx):
     """Translator: DiscoveryServer.verify_return as it reads NOW -> coq/gen/C08Src.v; C08/Source.v proves it equal to the
     model (the metadata lookup discovery_response is a parameter)."""
@@ -116,7 +127,49 @@ def gen_endpoints(rng, host, svc, bindings, indexed, weird, pool):
     return eps
 
 
-def gen_sp_descriptor(rng, host, weird, pool):
+# ---- location SHAPES (strengthening round 2).  The ordinary worlds register only plain ".../acs/p0", ".../disco"
+# locations; the shape worlds also register what metadata in the field has: the bare site root with and without its
+# slash, directory-style locations, doubled slashes, a query part (empty, complete, open-ended), an explicit port,
+# mixed case, percent-escapes, dot segments, a dangling '#', '?', '&', another scheme.  {h} = host, {p} = base path.
+DISCO_SHAPES = [
+    "https://{h}{p}/disco", "https://{h}{p}/disco/", "https://{h}{p}/", "https://{h}{p}", "https://{h}{p}/Shibboleth.sso/",
+    "https://{h}{p}/Shibboleth.sso/DS", "https://{h}{p}/disco//", "https://{h}{p}/disco?return=", "https://{h}{p}/disco?a=b&c=d",
+    "https://{h}:8443{p}/disco", "https://{h}:8443{p}/", "https://{h}{p}/Disco/Login", "https://{h}{p}/disco%2Fds",
+    "https://{h}{p}/disco/.", "https://{h}{p}/disco#", "https://{h}{p}/disco?", "https://{h}{p}/disco?a=b&",
+    "http://{h}{p}/disco/", "https://{h}{p}/a/b/c/", "https://{h}{p}/disco.php", "https://{h}{p}/~user/disco/",
+    "https://{h}{p}/disco/./", "https://{h}{p}/d",
+]
+ACS_TAILS = ["/", "//", "?", "?a=b", "#", ".", "/.", "%2F", "/Index.PHP", "/post/"]
+ACS_QTAILS = ["&", "&x=", "#", "/"]
+
+
+class Shapes:
+    """hands out the location shapes in turn, so that a run with n shape worlds meets every shape"""
+
+    def __init__(self, rng):
+        self.rng = rng
+        self.k = 0
+        self.t = 0
+
+    def disco(self, host):
+        h, _, base = host.partition("/")
+        out = []
+        for _ in range(self.rng.choice([1, 2, 2, 3])):
+            out.append(DISCO_SHAPES[self.k % len(DISCO_SHAPES)].format(h=h, p="/" + base if base else ""))
+            self.k += 1
+        self.rng.shuffle(out)
+        return out
+
+    def acs(self, loc):
+        tails = ACS_QTAILS if "?" in loc else ACS_TAILS
+        self.t += 1
+        if self.t % 7 == 0:
+            i = loc.rfind("/")
+            return loc[:i] + loc[i:].upper()
+        return loc + tails[self.t % len(tails)]
+
+
+def gen_sp_descriptor(rng, host, weird, pool, shapes=None):
     acs_b = rng.choice([[P], [P, R], [R, P], [P, R, A], [P, O], [R], [P, A, BOGUS], [A], [P, R, A, O]])
     slo_b = rng.choice([[], [R], [R, P, S], [S], [P]])
     mni_b = rng.choice([[], [], [S], [R, P]])
@@ -133,6 +186,15 @@ def gen_sp_descriptor(rng, host, weird, pool):
             if rng.random() < 0.08 and pool:
                 loc = rng.choice(pool)
             disco.append((b, loc))
+    if shapes is not None:
+        disco = []
+        if rng.random() < 0.9:
+            for loc in shapes.disco(host):
+                b = D if rng.random() < 0.8 else rng.choice([P, "urn:example:other-disco"])
+                disco.append((b, loc))
+        for svc, e in eps:
+            if svc == "assertion_consumer_service" and rng.random() < 0.5:
+                e["l"] = shapes.acs(e["l"])
     return {"role": "spsso_descriptor", "eps": eps, "disco": disco}
 
 
@@ -156,7 +218,7 @@ def validates(ent):
     return True
 
 
-def gen_world(rng, wid, n_idp=None):
+def gen_world(rng, wid, n_idp=None, shapes=None):
     n_sp = rng.randint(1, 3)
     n_idp = rng.choice([0, 1, 2, 2, 3, 3]) if n_idp is None else n_idp
     pool = []
@@ -164,10 +226,10 @@ def gen_world(rng, wid, n_idp=None):
     for k in range(n_sp):
         host = "sp%d.example.org" % (k + 1)
         eid = "https://%s/sp.xml" % host
-        descs = [gen_sp_descriptor(rng, host, rng.random() < 0.35, pool)]
+        descs = [gen_sp_descriptor(rng, host, rng.random() < 0.35, pool, shapes)]
         r = rng.random()
         if r < 0.12:
-            descs.append(gen_sp_descriptor(rng, host + "/second", False, pool))    # two SPSSODescriptors
+            descs.append(gen_sp_descriptor(rng, host + "/second", False, pool, shapes))    # two SPSSODescriptors
         elif r < 0.22:
             descs.append(gen_idp_descriptor(rng, host, pool))                      # SP that is also an IdP
         ents.append({"id": eid, "descs": descs})
@@ -176,7 +238,7 @@ def gen_world(rng, wid, n_idp=None):
         eid = "https://%s/idp.xml" % host
         descs = [gen_idp_descriptor(rng, host, pool)]
         if rng.random() < 0.12:
-            descs.insert(0, gen_sp_descriptor(rng, host, False, pool))
+            descs.insert(0, gen_sp_descriptor(rng, host, False, pool, shapes))
         ents.append({"id": eid, "descs": descs})
     # variants of some entities for another source: the same entityID with other endpoints / bindings / role.
     # MetadataStore.service (since d8b1d2a4) and with_descriptor (since 18964551) answer from the first source that
@@ -187,7 +249,7 @@ def gen_world(rng, wid, n_idp=None):
         if rng.random() < 0.35 or k == forced:
             host = e["id"].split("/")[2] + "/v2"
             if e["descs"][0]["role"] == "spsso_descriptor" and rng.random() < 0.8:
-                variants.append({"id": e["id"], "descs": [gen_sp_descriptor(rng, host, False, pool)]})
+                variants.append({"id": e["id"], "descs": [gen_sp_descriptor(rng, host, False, pool, shapes)]})
             else:
                 variants.append({"id": e["id"], "descs": [gen_idp_descriptor(rng, host, pool)]})
     allents = ents + variants
@@ -205,6 +267,8 @@ def gen_world(rng, wid, n_idp=None):
     for s in sources:
         if len(s["ents"]) > 1:
             s["multi"] = True
+    if shapes is not None:
+        pool = pool + [e["l"] for x in ents + variants for d in x["descs"] for _, e in d["eps"]]
     return {"wid": wid, "sources": sources, "pool": sorted(set(pool))}
 
 
@@ -279,6 +343,92 @@ def lookalike(rng, s):
     return s + " "
 
 
+# ---- the NEIGHBOURHOOD of a registered location (strengthening round 2): every URL a comparison that is sloppier
+# than the one the property asks for (== for consumer-service URLs, literal "starts with" for discovery return URLs)
+# could take for the registered one.  Deterministic and complete per location: no sampling.
+CONT = [".evil.example/", "@evil.example/", ":8443/x", "x", "-evil/", "?x=1", "#f", "/", "//", "/../x", "%2F", " ",
+        "\\evil.example/", "\u00e9"]
+CONT_FAR = [".evil.example/", "/x", "?u=1"]
+
+
+def url_cuts(L):
+    """(class, proper prefix of L): what normalising / trimming the REGISTERED location would compare with"""
+    out = [("cut-1", L[:-1])]
+    for ch in "/?#&=.":
+        out.append(("rstrip" + ch, L.rstrip(ch)))
+    out.append(("rstrip-all", L.rstrip("/?#&=. ")))
+    i = L.rfind("/")
+    if i > 8:
+        out += [("dirname/", L[:i + 1]), ("dirname", L[:i])]
+    for ch in "?#":
+        if ch in L:
+            out += [("before" + ch, L.split(ch)[0]), ("upto" + ch, L.split(ch)[0] + ch)]
+    m = re.match(r"[a-z]+://[^/?#]*", L)
+    far = [("cut-2", L[:-2])]
+    if m:
+        far += [("origin", m.group(0)), ("origin/", m.group(0) + "/"), ("host-only", m.group(0).rsplit(":", 1)[0] if
+                 m.group(0).count(":") > 1 else m.group(0))]
+    far.append(("half", L[:len(L) // 2]))
+    near = [(c, u) for c, u in out if u != L]
+    far = [(c, u) for c, u in far if u != L]
+    return near, far
+
+
+def url_neighbours(L, compact=False):
+    """[(class, url)], urls distinct, first class wins.  Classes starting with "ext" start with L."""
+    out = [("exact", L)]
+    for t in ["?x=1", "/more", "#f", "&x=1", "x", ".evil.com/", "@evil.example/", ":8443/", "%2e", "/", "?entityID=x", " ", "\n"]:
+        out.append(("ext" + t[:1], L + t))
+    near, far = url_cuts(L)
+    conts = CONT[:3] if compact else CONT
+    for c, u in near:
+        out.append((c, u))
+        for t in conts:
+            out.append((c + "+" + t.strip("/")[:6], u + t))
+    for c, u in far:
+        out.append((c, u))
+        for t in (CONT_FAR[:1] if compact else CONT_FAR):
+            out.append((c + "+" + t.strip("/")[:6], u + t))
+    # case
+    m = re.match(r"([a-z]+)://([^/?#]*)(.*)", L)
+    sch, auth, rest = m.groups() if m else ("", "", L)
+    out += [("upper", L.upper()), ("lower", L.lower()), ("swapcase", L.swapcase())]
+    if m:
+        out += [("host-upper", "%s://%s%s" % (sch, auth.upper(), rest)), ("scheme-upper", "%s://%s%s" % (sch.upper(), auth, rest)),
+                ("path-upper", "%s://%s%s" % (sch, auth, rest.upper())), ("path-lower", "%s://%s%s" % (sch, auth, rest.lower())),
+                # scheme
+                ("scheme-swap", "%s://%s%s" % ("http" if sch == "https" else "https", auth, rest)),
+                ("scheme-relative", "//%s%s" % (auth, rest)), ("no-scheme", auth + rest), ("scheme-1slash", "%s:/%s%s" % (sch, auth, rest)),
+                # authority
+                ("userinfo", "%s://user@%s%s" % (sch, auth, rest)), ("port-default", "%s://%s:443%s" % (sch, auth, rest)),
+                ("port-other", "%s://%s:8443%s" % (sch, auth.split(":")[0], rest)), ("host-dot", "%s://%s.%s" % (sch, auth, rest)),
+                ("subdomain", "%s://evil.%s%s" % (sch, auth, rest)), ("www", "%s://www.%s%s" % (sch, auth, rest)),
+                ("host-typo", "%s://%s%s" % (sch, auth.replace("example", "examp1e", 1), rest)),
+                ("host-suffix", "%s://%s.evil.example%s" % (sch, auth, rest)),
+                ("host-as-userinfo", "%s://%s@evil.example%s" % (sch, auth, rest)),
+                # same host, other path
+                ("same-host-other-path", "%s://%s/other" % (sch, auth)), ("same-host-root", "%s://%s/" % (sch, auth)),
+                # path spelling
+                ("dot-segment", "%s://%s/.%s" % (sch, auth, rest)), ("dotdot-segment", "%s://%s/x/..%s" % (sch, auth, rest)),
+                ("double-slash", "%s://%s/%s" % (sch, auth, rest)), ("backslash", "%s://%s%s" % (sch, auth, rest.replace("/", "\\"))),
+                ("pct-encoded", "%s://%s%s" % (sch, auth, re.sub(r"[a-zA-Z]", lambda c: "%%%02X" % ord(c.group(0)), rest, count=1))),
+                ("pct-decoded", "%s://%s%s" % (sch, auth, rest.replace("%2F", "/").replace("%2f", "/"))),
+                ("slash-pct", "%s://%s%s" % (sch, auth, rest.replace("/", "%2F"))),
+                ("query-reordered", "%s://%s%s" % (sch, auth, re.sub(r"\?([^&#]*)&([^&#]*)", r"?\2&\1", rest)))]
+    # white space / embedding
+    out += [("lead-space", " " + L), ("lead-tab", "\t" + L), ("lead-newline", "\n" + L), ("lead-x", "x" + L), ("tail-1", L[1:]),
+            ("embedded-query", "https://evil.example/?u=" + L), ("embedded-path", "https://evil.example/" + L),
+            ("embedded-fragment", "https://evil.example/#" + L), ("embedded-userinfo", "https://evil.example/@" + L),
+            ("reversed", L[::-1]), ("doubled", L + L)]
+    seen = set()
+    res = []
+    for c, u in out:
+        if u not in seen:
+            seen.add(u)
+            res.append((c, u))
+    return res
+
+
 # ------------------------------------------------------------------------------------------- cases
 def mk(w, op, tag):
     return {"world": w, "op": op, "tag": tag}
@@ -327,7 +477,6 @@ def generate(ctx):
     thorough = ctx.thorough
     n_worlds = 60 if thorough else 20
     worlds = [gen_world(rng, i, n_idp=(1 if i % 3 == 1 else None)) for i in range(n_worlds)]
-    publish_definitions(worlds)
     cases = []
     for w in worlds:
         sps = ids_with(w, "spsso_descriptor")
@@ -407,7 +556,73 @@ def generate(ctx):
                     ("unregistered", "https://evil.example.com/disco"), ("empty", "")]
             for un, u in (urls if full else rng.sample(urls, 4)):
                 cases.append(mk(w, {"k": "disco", "eid": e, "url": u}, "disco:" + un))
+    # ---- strengthening round 2: the sections above are unchanged (same draws from ctx.rng); what follows draws from a
+    # generator of its own, seeded from ctx.rng afterwards
+    sub = random.Random(rng.getrandbits(64))
+    shapes = Shapes(sub)
+    xworlds = [gen_world(sub, n_worlds + i, n_idp=(1 if i % 3 == 1 else None), shapes=shapes)
+               for i in range(24 if thorough else 6)]
+    for w in xworlds:
+        cases.extend(neighbourhood_cases(sub, w, True, thorough))
+    for w in worlds:
+        cases.extend(neighbourhood_cases(sub, w, False, thorough))
+    publish_definitions(worlds + xworlds)
     return cases
+
+
+def disco_registered(w, e):
+    return [l for x in all_entities(w) if x["id"] == e for d in x["descs"] if d["role"] == "spsso_descriptor"
+            for b, l in d["disco"] if b == D]
+
+
+def eid_lookalikes(e):
+    return [("eid-cut", e[:-1]), ("eid-slash", e + "/"), ("eid-upper", e.upper()), ("eid-space", " " + e), ("eid-x", e + "x"),
+            ("eid-host", "/".join(e.split("/")[:3])), ("eid-empty", "")]
+
+
+def neighbourhood_cases(rng, w, shaped, thorough):
+    """H. discovery: for every requester and EVERY discovery-response location registered for it, the complete
+    neighbourhood of that location as return URL; look-alike requester ids.  I. the same neighbourhood of the
+    registered consumer-service URLs as AssertionConsumerServiceURL.  Ordinary worlds: a sample of each."""
+    out = []
+    sps = ids_with(w, "spsso_descriptor")
+    idps = ids_with(w, "idpsso_descriptor")
+    for e in sps + idps[:1]:
+        mine = sorted(set(disco_registered(w, e)))
+        otherb = sorted({l for x in all_entities(w) if x["id"] == e for d in x["descs"] for b, l in d["disco"] if b != D})
+        others = sorted({l for x in all_entities(w) if x["id"] != e for d in x["descs"] for b, l in d["disco"] if b == D})
+        for L in mine:
+            nb = url_neighbours(L)
+            if not (shaped or thorough):
+                nb = rng.sample(nb, 8)
+            for un, u in nb:
+                out.append(mk(w, {"k": "disco", "eid": e, "url": u}, "disco-nb:" + un))
+        # locations registered for somebody else / under another binding, and THEIR slash-less, cut, continued forms
+        for cls, pool in (("other-sp", others), ("other-binding", otherb)):
+            for L in (pool if thorough else pool[:2] if shaped else pool[:1]):
+                for un, u in [("exact", L), ("ext", L + "?x=1"), ("cut-1", L[:-1]), ("rstrip/", L.rstrip("/") + ".evil.example/")]:
+                    out.append(mk(w, {"k": "disco", "eid": e, "url": u}, "disco-%s:%s" % (cls, un)))
+        if mine and (shaped or thorough):
+            for un, x in eid_lookalikes(e):
+                out.append(mk(w, {"k": "disco", "eid": x, "url": mine[0]}, "disco-" + un))
+    # I. consumer-service URL
+    for sp in (sps if shaped or thorough else sps[:1]):
+        acs = eps_of(w, sp, "spsso_descriptor", "assertion_consumer_service")
+        if not acs:
+            continue
+        # the endpoints with an unusual location first
+        acs = sorted(acs, key=lambda e: (not re.search(r"[^a-z0-9]$|[A-Z]", e["l"]), e["l"], e["b"]))
+        for ep in acs[:(3 if thorough else 2 if shaped else 1)]:
+            nb = url_neighbours(ep["l"], compact=True)
+            if not (shaped or thorough):
+                nb = rng.sample(nb, 6)
+            for un, u in nb:
+                idx = None if rng.random() < 0.8 else rng.choice(index_classes(rng, w, sp))[1]
+                pb = ep["b"] if rng.random() < 0.7 else rng.choice(PB_CLASSES)[1]
+                bindings = [] if rng.random() < 0.7 else rng.choice(CALLER_BINDINGS)
+                op = answer_op("AuthnRequest", sp, u, idx, pb, bindings, none_arg=rng.random() < 0.5)
+                out.append(mk(w, op, "authn-nb:" + un))
+    return out
 
 
 # ------------------------------------------------------------------------------------------- running the real code
@@ -646,9 +861,18 @@ def world_key(w):
     return repr((w["wid"], w["sources"]))
 
 
+WORLDS_MODULE = "C08Worlds"
+
+
 def publish_definitions(worlds):
+    """The metadata worlds and preference tables of this run as Coq definitions, so that a case names its world.
+    They are compiled ONCE into work/C08/C08Worlds.vo (the directory the case files are compiled in, hence on their
+    load path) and the case files import that; parsing the definitions again in every case file was 2/3 of the Coq
+    time.  If the compilation fails the definitions go into the preamble of every case file as before."""
     global IMPORTS
-    lines = [BASE_IMPORTS, "Import ListNotations.", "Open Scope string_scope."]
+    import os
+    from harness import common
+    lines = ["Import ListNotations.", "Open Scope string_scope."]
     for name in PREFS:
         lines.append("Definition pf_%s : list (string * list string) := %s." % (name, coq_prefs_term(name)))
     _WORLD_NAMES.clear()
@@ -656,7 +880,23 @@ def publish_definitions(worlds):
         nm = "world_%d" % w["wid"]
         lines.append("Definition %s : md := %s." % (nm, coq_world(w)))
         _WORLD_NAMES[world_key(w)] = nm
-    IMPORTS = "\n".join(lines)
+    IMPORTS = "\n".join([BASE_IMPORTS] + lines)
+    try:
+        wd = os.path.join(common.WORK, PID)
+        os.makedirs(wd, exist_ok=True)
+        path = os.path.join(wd, WORLDS_MODULE + ".v")
+        text = "\n".join(["From Coq Require Import String List ZArith Bool NArith.",
+                          "From Verif Require Import Base.Str Base.Run.", BASE_IMPORTS] + lines) + "\n"
+        for ext in (".vo", ".vok", ".vos", ".glob"):
+            if os.path.exists(path[:-2] + ext):
+                os.unlink(path[:-2] + ext)
+        with open(path, "w") as f:
+            f.write(text)
+        rc, out = common.coqc(path, cwd=wd)
+        if rc == 0 and os.path.exists(path[:-2] + ".vo"):
+            IMPORTS = BASE_IMPORTS + "\nRequire Import %s." % WORLDS_MODULE
+    except Exception:  # noqa: BLE001
+        pass
 
 
 CLS = {"AuthnRequest": "MAuthn", "LogoutRequest": "MLogout", "ManageNameIDRequest": "MManageNameID",
@@ -830,6 +1070,16 @@ def histogram(cases, observed):
             sig = [sorted((d["role"], s, e["b"], e["l"]) for d in x["descs"] for s, e in d["eps"]) for x in sources_with(w, i)]
             if any(g != sig[0] for g in sig[1:]):
                 rep_diff += 1
+    locs = {(w["wid"], l) for w in seen_w.values() for x in all_entities(w) for d in x["descs"] for b, l in d["disco"] if b == D}
+    nbh = {"disco_locations": len(locs),
+           "disco_locations_ending_in_punctuation": len([1 for _, l in locs if l[-1:] in "/?#&=."]),
+           "disco_location_without_path": len([1 for _, l in locs if l.count("/") == 2])}
+    for c, o in zip(cases, observed):
+        t = c["tag"].split(":")[0]
+        if t.endswith("-nb") or t.startswith("disco-other") or t.startswith("disco-eid"):
+            key = "%s/%s" % (t, out_kind(o))
+            nbh[key] = nbh.get(key, 0) + 1
+    h["neighbourhood"] = nbh
     h["repeated_entity"]["worlds_with_entity_in_two_sources"] = rep_w
     h["repeated_entity"]["entities_in_two_sources_with_different_endpoints"] = rep_diff
     for c, o in zip(cases, observed):
@@ -838,6 +1088,8 @@ def histogram(cases, observed):
             key = "%s/%s" % (c["op"]["k"], rc)
             h["repeated_entity"][key] = h["repeated_entity"].get(key, 0) + 1
         t = c["tag"] if not c["tag"].startswith("authn:") else "authn-alphabet"
+        if "-nb:" in t:
+            t = t.split("+")[0]
         h["by_tag"][t] = h["by_tag"].get(t, 0) + 1
         k = c["op"]["k"]
         h["by_kind"][k] = h["by_kind"].get(k, 0) + 1
